@@ -137,6 +137,8 @@ class Spec:
                 acts.append("push:%d:oddid" % sid)      # valid list, promised id of the client's parity
         for v in (0, 64, 4096, 8192):
             acts.append("rx:hts:%d" % v)
+        # the table size changes together with MAX_FRAME_SIZE (at its current value) in one SETTINGS frame
+        acts += ["rx:hts:0:mfs", "rx:hts:64:mfs"]
         # a header-carrying call whose output the application has not collected yet when the peer's SETTINGS arrives
         acts.append("h+hts:1:%s:64" % ("req" if self.client else "resp"))
         return acts
@@ -190,7 +192,10 @@ class Spec:
             return Step("h+hts", viols)
         if parts[0] == "rx" and parts[1] == "hts":
             v = int(parts[2])
-            o = h.rx([wire.settings([(wire.S_HEADER_TABLE_SIZE, v)])])
+            pairs = [(wire.S_HEADER_TABLE_SIZE, v)]
+            if parts[-1] == "mfs":
+                pairs = [(wire.S_MAX_FRAME_SIZE, 16384)] + pairs
+            o = h.rx([wire.settings(pairs)])
             if o.kind != "ok":
                 # the connection was already unusable (an earlier refused call closed it): C01's business
                 st.dead = True
